@@ -49,9 +49,10 @@ func (e *emitter) add(c Case) {
 		if len(c.Targets) == 0 {
 			c.Targets = []string{"t1", "t2"}
 		}
-		seen, obs := runIngest(c.Targets, c.NoEvent, c.Ops)
+		io := IOpts{NoEvent: c.NoEvent, SrvName: c.SrvName, Latency: c.Latency}
+		seen, obs := runIngest(c.Targets, io, c.Ops)
 		c.Ops, c.Obs = seen, obs
-		term = ingestTerm(nm, c.Targets, seen, obs)
+		term = ingestTerm(nm, c.Targets, io, seen, obs)
 		stored := false
 		for _, o := range obs {
 			e.meta.Hist("ingest:" + o.Res)
@@ -112,7 +113,7 @@ func (e *emitter) add(c Case) {
 		K, Q, D string
 		T       bool
 		O       []Op
-	}{c.Kind, c.QT, c.DT, c.TS != c.NoEvent, c.Ops})
+	}{c.Kind, c.QT, fmt.Sprint(c.DT, c.SrvName, c.Latency), c.TS != c.NoEvent, c.Ops})
 	e.meta.Count(c.Family, string(canon), nontrivial, map[string]interface{}{"family": c.Family, "kind": c.Kind, "ops": c.Ops, "obs": c.Obs})
 	if e.cf.Len() >= e.limit {
 		e.flush()
@@ -171,6 +172,7 @@ func main() {
 
 	gridIngest(e.add)
 	pairsIngest(e.add)
+	metaOptsIngest(e.add)
 	gridSub(e.add, o.Thorough())
 	gridCli(e.add)
 
